@@ -23,6 +23,10 @@ type KnownFinding struct {
 	Status   string `json:"status"` // known | fixed
 	What     string `json:"what"`
 	Commit   string `json:"commit,omitempty"`
+	// for monitor violations (panic/steps/alloc/write) a finding can be identified by the call
+	// site that fails instead of a harness predicate
+	Site string `json:"site,omitempty"`
+	Msg  string `json:"msg,omitempty"`
 }
 
 func loadKnown(verif string) []KnownFinding {
@@ -292,7 +296,13 @@ func runProp(prop, tier, repo, verif string, workers int, seed int64, solverBin,
 	if pd.Validate > 0 {
 		nval = pd.Validate
 	}
-	opts := RunOpts{Workers: workers, SolverBin: solverBin, TimeoutMs: pd.solverTimeout(tier), Seed: seed, Validate: nval,
+	var siteKnown []KnownFinding
+	for _, k := range knownList {
+		if k.Status == "known" && k.Site != "" {
+			siteKnown = append(siteKnown, k)
+		}
+	}
+	opts := RunOpts{SiteKnown: siteKnown, Workers: workers, SolverBin: solverBin, TimeoutMs: pd.solverTimeout(tier), Seed: seed, Validate: nval,
 		Known: known, Debug: debug, InitPkgs: pd.InitPkgs, Progress: true}
 	results := RunAll(L, cfgs, opts)
 
